@@ -349,7 +349,8 @@ class RuntimePrintingAssertionFeedback(RuntimeAssertionFeedback):
                 actual_output = self.report.format.output(actual_output)
         # Get the expected
         expected = f"But I expected {self._expected_verb}:"
-        expected_output = self.report.format.output(right.value)
+        # (the condition compares with the text of the value, whatever it is)
+        expected_output = self.report.format.output(str(right.value))
         # Join everything
         return "\n".join((actual, actual_output, expected, expected_output))
 
